@@ -682,6 +682,9 @@ class Interp:
             return None
         if isinstance(fn, type) and issubclass(fn, BaseException):
             return ExcVal(fn, list(args))
+        if isinstance(fn, type) and issubclass(fn, enum.Enum) and len(args) == 1 and isinstance(args[0], (Obj, ExcVal, list, dict, ClassInfo)):
+            # Enum lookup by value: no member equals an IR object
+            self.raise_(ValueError, f"{args[0]!r} is not a valid {fn.__name__}")
         h = BUILTIN_HANDLERS.get(fn)
         if h is not None:
             return h(self, args, kwargs)
@@ -970,6 +973,7 @@ class Interp:
         for ki, kind in enumerate(kinds):
             if ctx.branch(z3.Bool(f"loop!{c.name}!step!{ki}")):
                 c.havoc_prefix(self, env, seq)
+                ctx.loop_kind = (c.name, kind)
                 elem = c.make_element(self, kind, seq)
                 for f in seq.maps:
                     elem = f(self, elem)
